@@ -122,6 +122,8 @@ func symRequest(t *verifTree, faults bool) *verifReq {
 		r.overwrite, r.hasOverwrite = symHeader("Overwrite", []string{"T", "F"})
 	case "PROPFIND":
 		r.depth, r.hasDepth = symHeader("Depth", []string{"0", "1", "infinity"})
+	case "DELETE":
+		r.depth, r.hasDepth = symHeader("Depth", []string{"0", "1", "infinity"})
 	}
 	return r
 }
@@ -247,6 +249,11 @@ func refStep(before *verifTree, r *verifReq) (*refOutcome, bool) {
 		out.tree.kind[i] = kFile
 		out.tree.content[i] = r.body
 	case "DELETE":
+		if r.hasDepth && r.depth != "infinity" {
+			// RFC 4918 9.6.1: DELETE acts on the whole subtree; any other
+			// Depth is unsupported, and an invalid one is invalid
+			refuse(400)
+		}
 		if !before.exists(i) {
 			refuse(404)
 		}
@@ -435,6 +442,8 @@ type verifRun struct {
 	root   string
 	ms     *internal.MultiStatus
 	statFI *FileInfo
+	// the source of a COPY cannot be read although it can be opened
+	copyFault bool
 }
 
 // runStep: one request against an arbitrary valid tree.
@@ -456,9 +465,10 @@ func runStep(faults bool, conditional bool) *verifRun {
 			vrt.Assume(false)
 		}
 	}
-	if verifWantOpenFault && req.method == "COPY" && vrt.Choose("copy-source-unreadable", 2) == 1 {
+	if (verifWantOpenFault || verifWantCopyFault) && req.method == "COPY" && vrt.Choose("copy-source-unreadable", 2) == 1 {
 		// fault: the source file can be opened but reading it fails
 		vrt.Assume(t.kind[req.pi] == kFile)
+		run.copyFault = true
 		if vrt.Symbolic() {
 			verifCopyReadFault = true
 		} else if !verifMakeUnreadable(filepath.Join(run.root, req.path)) {
